@@ -795,11 +795,21 @@ func tweakPacket(p rtcp.Packet, seed uint64) {
 	}
 }
 
+// withSpare returns a copy of b with `extra` octets of spare capacity filled with the sentinel pattern
+// (a window into a larger receive buffer: what lies behind the datagram belongs to somebody else).
+func withSpare(b []byte, extra int) []byte {
+	c := make([]byte, len(b)+extra)
+	copy(c, b)
+	for i := len(b); i < len(c); i++ {
+		c[i] = sentinel
+	}
+	return c[:len(b)]
+}
+
 // corruptCopy returns a damaged copy of b (truncate / bit flips / splice).
 func corruptCopy(b []byte, seed uint64) []byte {
 	r := &rng{s: seed}
-	c := make([]byte, len(b), len(b)+r.intn(6))
-	copy(c, b)
+	c := withSpare(b, r.intn(6))
 	if len(c) == 0 {
 		return c
 	}
@@ -849,7 +859,7 @@ func repadCopy(b []byte, seed uint64) []byte {
 		off += n
 	}
 	if len(starts) == 0 || ends[len(ends)-1] != len(b) {
-		return append(make([]byte, 0, len(b)+r.intn(5)), b...)
+		return withSpare(b, r.intn(5))
 	}
 	i := len(starts) - 1
 	if r.chance(3) {
@@ -858,9 +868,10 @@ func repadCopy(b []byte, seed uint64) []byte {
 	k := 1 + r.intn(3)
 	words := (ends[i]-starts[i])/4 - 1 + k
 	if b[starts[i]]&0x20 != 0 || words > 0xFFFF {
-		return append(make([]byte, 0, len(b)+r.intn(5)), b...)
+		return withSpare(b, r.intn(5))
 	}
-	c := make([]byte, 0, len(b)+4*k+r.intn(5))
+	c := withSpare(nil, len(b)+4*k+r.intn(5))[:0]
+	c = c[:0:cap(c)]
 	c = append(c, b[:ends[i]]...)
 	for j := 0; j < 4*k-1; j++ {
 		c = append(c, r.u8())
